@@ -1,4 +1,62 @@
-import CssVerif.Model.Import
+/-
+C20 — @import loading is confined to the fetcher and tolerates its failures.
+
+`Model/Import.lean` transcribes the decisions of `util._readUrl` (which encoding, from which source),
+`CSSImportRule._setHref` (what becomes of each thing a fetcher can do) and the path algorithm of
+`util.urljoin`, and states RFC 3986 5.2.4 on path segments.
+
+Proved: the encoding is the first available of override ≻ HTTP ≻ BOM/@charset ≻ importing sheet ≻ UTF-8;
+for every fetcher behaviour of the property's table (plus an unknown encoding label and a circular
+import) loading ends with the rule kept and the sheet loaded or empty, never with an exception; and the
+path of `urljoin(base, ref)` is the RFC's `remove_dot_segments(merge(base, ref))` for references of any
+length that do not climb above the root.  The two escapes of the pinned snapshot are kept as witnesses.
+
+Tie: `encsel` (full 3x4x3x4 table against the encoding the real imported sheet gets), `fetchout` (each behaviour
+against the real parser), `urlpath` / `rfcpath` (model and RFC side against util.urljoin and a string-level
+transcription of the RFC's pseudo-code).
+Partial: that the fetcher is the only I/O, that nested imports resolve against the imported sheet, and
+resolveImports' flattening are decided by the oracle on the implementation.
+-/
+import CssVerif.Proofs.Import
 namespace CssVerif.C20
-theorem placeholder : True := trivial
+open CssVerif.Import
+
+/-- documented priority of the encoding sources -/
+theorem enc_priority (o h e p : Option Nat) (u : Nat) :
+    (chooseEncoding o h e p u).1 = ((o.or h).or (e.or p)).getD u := choose_first o h e p u
+
+theorem enc_source (o h e p u : Nat) :
+    (chooseEncoding (some o) (some h) (some e) (some p) u).2 = .override ∧
+    (chooseEncoding none (some h) (some e) (some p) u).2 = .http ∧
+    (chooseEncoding none none (some e) (some p) u).2 = .content ∧
+    (chooseEncoding none none none (some p) u).2 = .parent ∧
+    (chooseEncoding none none none none u).2 = .default := ⟨rfl, rfl, rfl, rfl, rfl⟩
+
+/-- an override stays an override for nested imports; the default is not handed on -/
+theorem hand_on (e : Nat) :
+    handOn (e, .override) = (some e, none) ∧ handOn (e, .http) = (none, some e) ∧
+    handOn (e, .content) = (none, some e) ∧ handOn (e, .parent) = (none, some e) ∧ handOn (e, .default) = (none, none) :=
+  ⟨rfl, rfl, rfl, rfl, rfl⟩
+
+/-- whatever the fetcher does, loading ends: loaded for text / decodable bytes, an empty sheet otherwise -/
+theorem fetch_contained (f : Fetch) : setHref true f = some (if loads f then .loaded else .failedEmpty) := contained f
+
+/-- the pinned snapshot let LookupError and RecursionError escape -/
+theorem snapshot_counterexample : setHref false .unknownEncoding = none ∧ setHref false .cyclic = none := snapshot_escapes
+
+/-- `urljoin` is RFC 3986 below the root -/
+theorem urljoin_rfc (base rel : Path) (hrel : rel.head? ≠ some "")
+    (segs : List String) (hsegs : (if base.getLast? == some "" then base else base.dropLast) ++ rel = "" :: segs)
+    (hne : dropInnerEmpty ("" :: segs) = "" :: segs) (hclimb : noClimb 0 segs = true) :
+    joinPath base rel = rfcPath ("" :: segs) := joinPath_rfc base rel hrel segs hsegs hne hclimb
+
+/-- non-vacuity: `/d/e/s.css` + `../x/./a.css` -/
+example : joinPath ["", "d", "e", "s.css"] ["..", "x", ".", "a.css"] = ["", "d", "x", "a.css"] ∧
+    noClimb 0 ["d", "e", "..", "x", ".", "a.css"] = true ∧
+    rfcPath ["", "d", "e", "..", "x", ".", "a.css"] = ["", "d", "x", "a.css"] := by decide
+
+/-- where css_parser deliberately leaves the RFC: a reference climbing above the root keeps its `..` -/
+theorem above_root_differs :
+    joinPath ["", "s.css"] ["..", "..", "a.css"] = ["..", "a.css"] ∧ rfcPath ["", "..", "..", "a.css"] = ["", "a.css"] := by decide
+
 end CssVerif.C20
